@@ -16,6 +16,16 @@ CHECKS = {
    "Arbitrary byte strings, structured mutations of valid frames (every truncation point), and the exhaustive cross product of boundary values for the three 64-bit length fields (incl. wrapping sums and unallocatable sizes) are fed to all 5 slice parsers and all 4 stream readers; never panic/abort, Ok iff the reference parser says a whole consistent frame is present, payload identical to the input bytes, exactly one frame consumed.",
    "Stream-reader cases keep each declared payload <= 16 MiB or >= 2^62 (the property's own memory-independence restriction); aborts are observed as child signal exits.",
    "DESIGN.md §4 C02"),
+ "C04": ("exploration",
+   "property-based + bounded-exhaustive schedule generation against a scripted peer: all K! reply orders (K<=5 quick / 6 thorough) for three clients, random valid interleavings of receive/answer events up to K=64 with injected unknown-id, duplicate and notify-reuse frames; self-identifying response bodies as oracle",
+   "Each of K concurrent calls must return the body that names its own path, batch results must be positional, injected notifies must reach only the subscriber (exactly once), and all ids on a connection must be distinct, for every generated reply order and injection pattern on Client, AsyncClient and WebSocketClient (async clients on a multi-thread runtime so reader and callers run in parallel).",
+   "Thread/task interleavings are sampled by the OS scheduler, not enumerated; the model-checking clause of the quantifier is outside this technique.",
+   "DESIGN.md §4 C04"),
+ "C09": ("exploration",
+   "property-based testing of the raw /_svs/open|next|cancel exchange against the producer's logical bytes (round trip, with zstd decode), boundary-residue payload lengths, injected producer failures",
+   "For generated chunk sizes, payload lengths at every chunk-boundary residue, channel depths 0..8, both compression settings and all five producer kinds, the concatenated pulled chunks must equal the producer's bytes, exactly the final chunk carries the end marker, an empty uncompressed payload is one empty final chunk, next after end/cancel/unknown id errors, and an injected producer failure surfaces as an error with no end marker and only a prefix delivered.",
+   "chunk_bytes >= 1; chunk sizing itself (local engine policy) not asserted. Puller-level sub-checks over transports are added by c09_net.",
+   "DESIGN.md §4 C09"),
  "C07": ("exploration",
    "property-based differential testing: owned vs borrowed vs context dispatch, with vs without middleware, shuffled registration programs; independent RFC 6901 tokenizer and prefix predicate as oracle for mounts",
    "Every built-in handler kind x body-format code x body shape is dispatched through handle / handle_with_ctx / handle_view behind 0..3 forwarding middlewares registered at shuffled positions and must give the same normalised response and handler observations as the middleware-free router, with each middleware running exactly once; recording struct and registry mounts at generated roots must be reached iff the path equals the root or extends it at '/', an exactly registered path wins, and the struct sees exactly the independent tokenizer's reference tokens for depths 0..40 (incl. 15/16/17).",
